@@ -65,16 +65,26 @@ class RecPlugin(PlanHandlerPlugin):
         return method.lower() == "rec"
 
 
-def config(k, maxfun=0):
+def config(k, maxfun=0, outdir=None):
     cfg = {"variables": {"initial_values": [0.0, 0.0]},
            "optimizer": {"method": "rvscript/script", "options": {"script": [{"f": True, "g": False, "x": None}] * k}},
            "realizations": {"weights": [1.0, 1.0]}}
     if maxfun:
         cfg["optimizer"]["max_functions"] = maxfun
+    if outdir:
+        cfg["optimizer"].update({"output_dir": outdir, "stdout": "optimizer.out"})
     return cfg
 
 
 def drive(sc):
+    if (sc["cfg"] if "cfg" in sc else sc).get("redir"):
+        import tempfile
+        with tempfile.TemporaryDirectory(prefix="rvc15") as outdir:
+            return _drive(sc, outdir)
+    return _drive(sc, None)
+
+
+def _drive(sc, outdir):
     full = sc
     sc = sc["cfg"] if "cfg" in sc else sc
     rec = Recorder(sc)
@@ -102,7 +112,7 @@ def drive(sc):
     for i in range(1, NH + 1):
         outer.add_handler("rvrec/rec", rec=rec, level=1, idx=i)
     trace = [{"ev": "Scenario", **{k: sc[k] for k in ("kind", "K", "Kin", "failAt", "maxfun", "abEm", "abRc", "abCall")},
-              "twoctx": bool(sc.get("twoctx", False))}]
+              "twoctx": bool(sc.get("twoctx", False)), "redir": bool(sc.get("redir", False))}]
     refused = 0
 
     def run(plan, step, stepno, **kw):
@@ -125,10 +135,10 @@ def drive(sc):
             run(outer, step, 1, config={"variables": {"initial_values": [0.0, 0.0]}, "realizations": {"weights": [1.0, 1.0]}})
         elif kind in ("opt", "seq"):
             s1 = outer.add_step("optimizer")
-            run(outer, s1, 1, config=config(sc["K"], sc["maxfun"]))
+            run(outer, s1, 1, config=config(sc["K"], sc["maxfun"], outdir))
             if kind == "seq":
                 s2 = outer.add_step("optimizer")
-                run(outer, s2, 2, config=config(sc["K"], sc["maxfun"]))
+                run(outer, s2, 2, config=config(sc["K"], sc["maxfun"], outdir))
         else:
             inner = Plan(OptimizerContext(evaluator=evaluator, plugin_manager=pm) if sc.get("twoctx") else ctx)
             for i in range(1, NH + 1):
@@ -142,7 +152,7 @@ def drive(sc):
                 counter["k"] += 1
                 rec.stepno[istep] = 100 + counter["k"]
                 try:
-                    code = plan.run_step(istep, config=config(sc["Kin"]), variables=variables)
+                    code = plan.run_step(istep, config=config(sc["Kin"], 0, outdir), variables=variables)
                     rec.events.append({"ev": "Return", "etype": "", "step": 100 + counter["k"], "level": 2,
                                        "recv": {"kind": "", "level": 0, "idx": 0}, "code": exit_name(code)})
                 except PlanAborted:
@@ -151,7 +161,7 @@ def drive(sc):
 
             inner.add_function(inner_fn)
             s1 = outer.add_step("optimizer")
-            run(outer, s1, 1, config=config(sc["K"], sc["maxfun"]), nested_optimization=inner)
+            run(outer, s1, 1, config=config(sc["K"], sc["maxfun"], outdir), nested_optimization=inner)
             aborted_inner = inner.aborted
     except Exception as exc:  # noqa: BLE001 - an escaping exception is the observation
         outcome = f"exc:{type(exc).__name__}"
@@ -177,7 +187,10 @@ def model_runs(tier):
              "constants": {"KSet": "{1, 2, 3}", "KinSet": "{1, 2}", "MaxEm": 30, "MaxCall": 9}}]
 
 
+from .basic import C15_CLAUSES as _BASIC_CLAUSES  # noqa: E402
+
 CHECK = PropertyCheck(
+    attached=(("rv.drivers.basic", _BASIC_CLAUSES),),
     whole_run_clauses=('step_started_inside_a_step', 'evaluation_outside_a_step', 'evaluations_interleaved', 'FINISHED_EVALUATION_without_START_EVALUATION', 'FINISHED_STEP_without_START_STEP', 'step_returned_without_FINISHED_STEP', 'unmatched_START_EVALUATION_without_abort', 'abort_not_reported', 'step_refused_without_abort', 'step_ran_after_the_plan_was_aborted'),
     prop="C15", trace_module="Trace_C15", drive=drive, model_runs=model_runs,
     rule=("TLC model-checks Plan.tla (bracketing, delivery order, abort latch, nested abort reaches the parent, termination under weak "
